@@ -1187,7 +1187,7 @@ pub fn stream_replace<C: Case, A: Automaton, const T: usize, const W: usize, con
     let hay: [u8; T] = any();
     let rdr = SymReader::new(&hay[..], 0, usize::MAX);
     let fail_at: usize = if WFAULT { any() } else { usize::MAX };
-    let mut wtr = SymWriter::<W> { out: [0; W], len: 0, calls: 0, fail_at, failed: false, overflow: false, partial: !WFAULT };
+    let mut wtr = SymWriter::<W> { out: [0; W], len: 0, calls: 0, fail_at, failed: false, overflow: false, partial: !WFAULT && T >= 2 };
     let mut closure_ok = true;
     let hayref = &hay;
     let res = aut.try_stream_replace_all_with(rdr, &mut wtr, |m, bytes, w| {
